@@ -53,6 +53,19 @@ Definition ty_args (v: kv) : kv :=
   | KTuple [KStr _] => if ty_tag "Optional" v then KTuple [KObj 0; ty_nonetype]
                        else if ty_tag "UnionNone" v then KTuple [KObj 0; KObj 3; ty_nonetype] else KTuple []
   | _ => KTuple [] end.
+(* ---- type variables (declared types of the fields of a generic class) ----
+   a variable the specialisation binds to t: KTuple [KStr "TypeVar"; t];
+   a variable left unbound whose declaration carries bound=t: KTuple [KStr "TypeVarBound"; t]
+   (the unbound, unconstrained variable is KTuple [KStr "TypeVarAny"], above).
+   CodeBuilder.get_real_type = substitute_type_params with the resolved parameters of the specialisation:
+   the bound variable becomes its binding, everything else is left as it is *)
+Definition ty_real (v: kv) : kv :=
+  match v with KTuple [KStr s; t] => if String.eqb s "TypeVar" then t else v | _ => v end.
+
+(* helpers.get_type_var_meaning (fixes/C08-typevar-bound-nullable.diff): a variable nobody binds stands for its bound *)
+Definition ty_unbound (v: kv) : kv :=
+  match v with KTuple [KStr s; t] => if String.eqb s "TypeVarBound" then t else v | _ => v end.
+
 (* x in <tuple / list> *)
 Definition k_in (x c: kv) : res bool :=
   match c with KTuple l | KList l => Ok (existsb (kv_eqb x) l) | _ => Raise TypeError end.
